@@ -3,6 +3,7 @@
 # Development loop: apply the change in a scratch worktree of /repo (never /repo itself), point the SAME
 # checks at it through VERIF_REPO, keep evidence/replays apart through VERIF_OUT, remove the worktree.
 set -u
+HERE=$(cd "$(dirname "$0")/.." && pwd)
 D=$(cd "$1" && pwd); T=$2; shift 2
 N=$(echo "$D" | tr '/' '_')
 W=/tmp/wtm/$N; O=/tmp/wtm/$N.out
@@ -11,7 +12,7 @@ git -C /repo worktree add -q --detach "$W" HEAD || exit 9
 git -C "$W" apply "$D/patch.diff" || { echo "MUT $D apply=FAIL"; git -C /repo worktree remove --force "$W"; exit 9; }
 for P in "$@"; do
   s=$(date +%s)
-  VERIF_REPO=$W VERIF_OUT=$O /verif/check "$P" --tier "$T" ${JOBS:+--jobs $JOBS} ${ONLY:+--only "$ONLY"} > "$O/$P.log" 2>&1; rc=$?
+  VERIF_REPO=$W VERIF_OUT=$O "$HERE/check" "$P" --tier "$T" ${JOBS:+--jobs $JOBS} ${ONLY:+--only "$ONLY"} > "$O/$P.log" 2>&1; rc=$?
   e=$(date +%s)
   echo "MUT $D check=$P tier=$T exit=$rc $((e-s))s viol=$(grep -c '^VIOLATION' "$O/$P.log") | $(grep '^SUMMARY' "$O/$P.log" | cut -c1-150)"
   grep '^HARNESS-ERROR' "$O/$P.log" | cut -c1-300 | head -3
